@@ -24,8 +24,9 @@ from pbt.engine import Skip, Sub
 
 ID = "C31"
 RULE = (
-    "Hypothesis draws a scene from the serialisable kinds only: UniformGrid, QuasiUniformGrid(d,d,d) or an explicit "
-    "equally spaced RectilinearGrid in the config (optionally a gradient config), even volume shape 8..14, faces "
+    "Hypothesis draws a scene from the serialisable kinds only: UniformGrid, QuasiUniformGrid(d,d,d), an explicit "
+    "equally spaced RectilinearGrid or an explicit stretched RectilinearGrid (widths 0.6..1.6 d; there only "
+    "real-offset constraint styles are used) in the config (optionally a gradient config), even volume shape 8..14, faces "
     "from {open, PerfectlyMatchedLayer(2..3)}, 0..2 UniformMaterialObjects (isotropic / diagonal / full tensor, "
     "lossy, magnetic, optionally a Lorentz+Drude dispersive one), 1..2 plane sources (uniform / Gaussian; CW with "
     "phase or Gaussian pulse profile; OnOffSwitch windows, intervals, fixed step lists), 1..2 detectors (field, "
@@ -46,6 +47,8 @@ ASSUMPTIONS = [
     "a case whose *original* setup is rejected by place_objects is outside the domain (Skip), never a violation",
 ]
 
+S_GENERAL = ("ext2", "shape_pos_real")  # stretched grids: index-space margins/offsets are rejected there
+S_FULL = ("same_size", "extend_inf", "ext2")
 GENERAL = ("grid", "pos_gm", "pos_real", "extend", "center", "shape_pos", "realshape_pos", "pos_hi", "extend_lo")
 FIXED = ("grid", "pos_gm", "pos_real", "grid_lo", "grid_hi", "pos_hi")
 FULL = ("grid", "same_size", "extend_inf", "pos_real", "extend")
@@ -92,14 +95,16 @@ def case_strategy(draw, ctx):
     for dd in detectors:
         if dd["type"] == "phasor" and not scenes.switch_on_steps(dd["switch"], steps):
             dd["switch"] = {}
-    grid = draw(st.sampled_from(["uniform", "uniform", "quasi", "rectc"]))
+    grid = draw(st.sampled_from(["uniform", "uniform", "quasi", "rectc", "stretched"]))
+    widths = draw(scenes.grid_strategy(shape, faces, kinds=("rect",)))["widths"] if grid == "stretched" else None
     grad = draw(st.sampled_from([None, None, {"method": "checkpointed", "n": 3}, {"method": "reversible", "ckpt": 0}]))
     if dispersive and grad and grad["method"] == "reversible":
         grad = {"method": "checkpointed", "n": 2}
     spec = {
         "d": draw(st.sampled_from([5e-8, 2.5e-8, 1e-7 / 3, 4.7123456789e-8])),
         "shape": shape, "steps": steps, "courant": draw(st.sampled_from([0.5, 0.8, 0.99])),
-        "grid": {"kind": "quasi" if grid == "quasi" else "uniform"},
+        "grid": {"kind": "quasi"} if grid == "quasi" else (
+            {"kind": "rect", "widths": widths} if grid == "stretched" else {"kind": "uniform"}),
         "faces": faces, "background": {"eps": draw(st.sampled_from([1.0, 1.5, 2.25]))},
         "objects": objects, "sources": sources, "detectors": detectors, "gradient": grad,
     }
@@ -135,9 +140,17 @@ def _setup(case, lane):
         cons.append(ob.set_grid_coordinates(axes=(0, 1, 2, 0, 1, 2), sides=("-", "-", "-", "+", "+", "+"),
                                             coordinates=(*db["lo"], *db["hi"])))
     V = vol.name
+    stretched = spec["grid"]["kind"] == "rect"
+    edges = None
+    if stretched:
+        edges = [np.concatenate([[0.0], np.cumsum(np.asarray(w, dtype=np.float64) * d)]) for w in spec["grid"]["widths"]]
     new_objs, out, intended = [vol], [], {}
     for idx, (o, c) in enumerate(zip(objs[1:], cons)):
-        lo, hi = list(c.coordinates[:3]), list(c.coordinates[3:])
+        if stretched and not isinstance(c, GridCoordinateConstraint):  # exact edge coordinates -> cell indices
+            ii = [int(np.argmin(np.abs(edges[k % 3] - x))) for k, x in enumerate(c.coordinates)]
+            lo, hi = ii[:3], ii[3:]
+        else:
+            lo, hi = list(c.coordinates[:3]), list(c.coordinates[3:])
         intended[o.name] = tuple((lo[a], hi[a]) for a in range(3))
         m = case["modes"][idx % len(case["modes"])]
         name = o.name
@@ -145,7 +158,10 @@ def _setup(case, lane):
             n, size = shape[a], hi[a] - lo[a]
             fixed = o.partial_grid_shape[a] is not None
             full = lo[a] == 0 and hi[a] == n
-            opts = FIXED if fixed else (FULL if full else GENERAL)
+            if stretched:
+                opts = S_FULL if full else S_GENERAL
+            else:
+                opts = FIXED if fixed else (FULL if full else GENERAL)
             mode = opts[m[a] % len(opts)]
             if mode == "center" and (lo[a] + hi[a] - n) % 2:
                 mode = "pos_gm"
@@ -202,6 +218,16 @@ def _setup(case, lane):
                                                    other_position=1.0, offset=0.0, grid_offset=0))
                 out.append(SizeExtensionConstraint(object=name, other_object=None, axis=a, direction="+",
                                                    other_position=-1.0, offset=0.0, grid_offset=0))
+            elif mode == "ext2":
+                out.append(SizeExtensionConstraint(object=name, other_object=V, axis=a, direction="-", other_position=-1.0,
+                                                   offset=float(edges[a][lo[a]] - edges[a][0]), grid_offset=0))
+                out.append(SizeExtensionConstraint(object=name, other_object=V, axis=a, direction="+", other_position=1.0,
+                                                   offset=float(edges[a][hi[a]] - edges[a][n]), grid_offset=0))
+            elif mode == "shape_pos_real":
+                pg = list(o.partial_grid_shape)
+                pg[a] = size
+                o = o.aset("partial_grid_shape", tuple(pg))
+                out.append(pos(-1, -1, rm=float(edges[a][lo[a]] - edges[a][0])))
             elif mode == "shape_pos":
                 pg = list(o.partial_grid_shape)
                 pg[a] = size
@@ -269,7 +295,7 @@ def body(ctx, case):
         raise Skip()
     kinds = sorted({type(c).__name__ for c in cons})
     got = {o.name: o.grid_slice_tuple for o in o1.objects}
-    ctx.classify("route=" + case["route"], "grid=" + type(cfg.grid).__name__, "n_constraint_kinds=%d" % len(kinds),
+    ctx.classify("route=" + case["route"], "grid=" + type(cfg.grid).__name__ + ("-stretched" if case["scene"]["grid"]["kind"] == "rect" else ""), "n_constraint_kinds=%d" % len(kinds),
                  *("con=" + k for k in kinds), *("src=" + s["type"] for s in case["scene"]["sources"]),
                  *("profile=" + s["profile"]["kind"] for s in case["scene"]["sources"]),
                  *("det=" + d["type"] for d in case["scene"]["detectors"]),
@@ -326,7 +352,7 @@ def _first_diff(a, b):
 
 
 SUBS = [
-    Sub(name="round_trip", body=body, strategy=lambda ctx: case_strategy(ctx), quick=12, thorough=640,
+    Sub(name="round_trip", body=body, strategy=lambda ctx: case_strategy(ctx), quick=8, thorough=480,
         lanes=("f64", "f32"), f32_fraction=0.25, quick_shards=2,
         rule="random serialisable setup -> JSON -> setup; both placed and run, everything bit-equal"),
 ]
